@@ -395,6 +395,28 @@ def build_cases(rng, tier):
     return cases, twins
 
 
+IMPL_TIMEOUT = 600   # seconds per run_impl call; each case additionally has a 20 s watchdog inside the binary
+
+
+def run_impl_retry(binname, cases):
+    """Runs the cases; a case the binary reports as {"hang": true} (per-case watchdog / bounded drain loops)
+    is retried once, alone. Returns (outs, hung) where hung = indices that hang again (machinery failure
+    of that case: never a silent pass). Outputs of hung cases are {"hang": true}."""
+    outs = common.run_impl(binname, cases, "dev", timeout=IMPL_TIMEOUT)
+    redo = [i for i, o in enumerate(outs) if o.get("hang")]
+    hung = []
+    for n, i in enumerate(redo):
+        if n >= 6:          # systemic: do not spend more than ~2 min on retries
+            hung.append(i)
+            continue
+        o2 = common.run_impl(binname, [cases[i]], "dev", timeout=IMPL_TIMEOUT)[0]
+        if o2.get("hang") or o2.get("crash") and "timeout" in str(o2.get("stderr")):
+            hung.append(i)
+        else:
+            outs[i] = o2
+    return outs, hung
+
+
 def strip(c):
     return {k: c[k] for k in ("burst", "refresh", "start", "ops")}
 
@@ -415,12 +437,13 @@ def run(rep):
         cases = [dict(c, kind="corpus") for c in json.load(open(cp))] + cases
         off = len(json.load(open(cp)))
         twins = [(a + off, b + off) for (a, b) in twins]
-    outs = common.run_impl("limiter", [strip(c) for c in cases], "dev")
+    outs, hung = run_impl_retry("limiter", [strip(c) for c in cases])
+    hangs = [{"binary": "limiter", "case": strip(cases[i])} for i in hung]
     coq_cases, pred_fail, kinds = [], [], {}
     distinct = set()
     nacq = ngr = ncancel = 0
     for i, (c, o) in enumerate(zip(cases, outs)):
-        if "skipped" in o:
+        if "skipped" in o or o.get("hang"):
             continue
         if "crash" in o:
             # the process died: a panic that cannot unwind (e.g. inside Permit::drop) aborts the harness
@@ -438,7 +461,7 @@ def run(rep):
             ncancel += sum(1 for s in o["status"] if s == 3)
     twin_checked = 0
     for (a, b) in twins:
-        if any(k in outs[x] for x in (a, b) for k in ("crash", "skipped")):
+        if any(k in outs[x] for x in (a, b) for k in ("crash", "skipped", "hang")):
             continue
         f = twin_predicate(cases[a], outs[a], cases[b], outs[b])
         if "panic" not in outs[b] and outs[b]["status"][cases[b]["twin_of"]] == 3:
@@ -453,10 +476,11 @@ def run(rep):
     # ---- RPC half at mux level: real Mux + StreamQueue limiters, trace acceptance by the StreamQueue model
     nmux = 60 if tier == "quick" else 1500
     mcases = [gen_mux_case(rng) for _ in range(nmux)]
-    mouts = common.run_impl("limiter_mux", mcases, "dev")
+    mouts, mhung = run_impl_retry("limiter_mux", mcases)
+    hangs += [{"binary": "limiter_mux", "case": mcases[i]} for i in mhung]
     mux_fail, traces, mux_opens = [], [], 0
     for i, (c, o) in enumerate(zip(mcases, mouts)):
-        if "skipped" in o:
+        if "skipped" in o or o.get("hang"):
             continue
         if "crash" in o:
             mux_fail.append({"case": c, "impl": o, "failed": "the mux harness process aborted: " + str(o.get("stderr", ""))[-200:]})
@@ -486,6 +510,10 @@ def run(rep):
                       {"broken": broken, "first_disagreement": {"case": mcases[t[3]], "side": t[4], "impl": mouts[t[3]], "model_obs": tmm[k],
                                                                 "meaning": "[accepted, events consumed before rejection, opens]"}},
                       found_input=False)
+    if hangs:
+        rep.violation(f"machinery failure: {len(hangs)} case(s) did not terminate within the per-case watchdog (20 s real time) even when retried alone "
+                      f"(binary {hangs[0]['binary']}): the code under test or the harness does not terminate on this input",
+                      {"failing_input": hangs[0], "more": hangs[1:4], "broken": broken})
     if pred_fail:
         pred_fail.sort(key=lambda f: len(f["case"]["ops"]))
         rep.violation("rate limiter violates C15 on the implementation: " + pred_fail[0]["failed"],
@@ -515,7 +543,7 @@ def run(rep):
         "input_distribution": dict(kinds, acquires=nacq, grants=ngr, cancelled=ncancel, twin_pairs=len(twins), twin_pairs_with_cancelled_wait=twin_checked),
         "samples": [{"case": strip(cases[i]), "impl": outs[i], "model_obs": samp.get(i)} for i in sample_ids if i < len(cases)]
                    + [{"mux_case": mcases[t[3]], "side": t[4], "impl": mouts[t[3]], "model_accept_trace": tsamp.get(t[0])} for t in traces[:2]],
-        "correspondence_mismatches": len(mm), "predicate_failures": len(pred_fail),
+        "correspondence_mismatches": len(mm), "predicate_failures": len(pred_fail), "hung_cases": len(hangs),
         "partial": "proved for the limiter (all step sequences of the atomic-step model, which the scripts refine) and for the permit-per-OPEN model of a StreamQueue; the RPC half is tied to the code at mux level only (real Mux pairs / a raw flooding peer under ManualClock: window and concurrency predicates + acceptance of the observed open/close traces by the model); rpc::Service itself (Server::serve, ReservedCall) is not driven (no hook; see proposed_hooks/C15.diff); concurrency <= INFLIGHT relies on C14 open_streams_bounded for the number of reusable streams",
     })
     rep.assumptions += ["H-ATOM (fair tokio Mutex, atomic watch/Mutex critical sections)",
@@ -531,17 +559,21 @@ def replay(path):
     c = fi["case"]
     common.cargo_build(["limiter", "limiter_mux"], "dev")
     if "mode" in c:
-        o = common.run_impl("limiter_mux", [c], "dev")[0]
+        o = common.run_impl("limiter_mux", [c], "dev", timeout=IMPL_TIMEOUT)[0]
         print("case:", json.dumps(c))
         print("impl:", json.dumps(o))
+        if o.get("hang") or "crash" in o or "panic" in o:
+            return 0
         print("predicate:", mux_predicate(c, o))
         trs = [(side, coq_trace(c, o, side), common.to_obsv([1, 0, 0])) for side in ((1,) if c["mode"] == "flood" else (0, 1))]
         mm, samp = common.run_model_cases("C15mux", "From EC Require Import Model.Limiter.", "Model.Limiter.accept_trace", trs, sample_ids=[0, 1])
         print("model accept_trace per side [accepted, events consumed, opens]:", samp)
         return 0
-    o = common.run_impl("limiter", [c], "dev")[0]
+    o = common.run_impl("limiter", [c], "dev", timeout=IMPL_TIMEOUT)[0]
     print("case:", json.dumps(c))
     print("impl:", json.dumps(o))
+    if o.get("hang") or "crash" in o or "panic" in o:
+        return 0
     mm, samp = common.run_model_cases("C15", "From EC Require Import Model.Limiter.", "Model.Limiter.run_case",
                                       [(0, coq_case(c), common.to_obsv(impl_obs(o)))], sample_ids=[0])
     print("model:", samp.get(0))
